@@ -30,11 +30,16 @@ var slotOfE7 = func() map[string]int {
 	return m
 }()
 
+func slotOf(ll s2.LatLng) (int, bool) {
+	k, ok := slotOfE7[skelx.E7(ll)]
+	return k, ok
+}
+
 func featToken(f b6.Feature) string {
-	s := skelx.RefsToken(f, false)
+	s := skelx.GeoToken(f, slotOf)
 	if f.FeatureID().Type == b6.FeatureTypePoint {
 		if p, ok := f.(b6.PhysicalFeature); ok && p.GeometryType() == b6.GeometryTypePoint {
-			if k, ok := slotOfE7[skelx.E7(s2.LatLngFromPoint(p.Point()))]; ok {
+			if k, ok := slotOf(s2.LatLngFromPoint(p.Point())); ok {
 				return s + fmt.Sprintf(";loc=%d", k)
 			}
 			return s + ";loc=999"
@@ -94,7 +99,7 @@ func newExec() func(string) string {
 					if v, ok := sp.Attrs["loc"]; ok {
 						fmt.Sscanf(v, "%d", &k)
 					}
-					locs[sp.ID] = skelx.SlotLatLng(k)
+					locs[sp.ID] = skelx.RefLatLng(k) // what a world would answer for the point feature
 				}
 			}
 			v := compact.NewValidator(locs)
@@ -134,9 +139,12 @@ func newExec() func(string) string {
 type gen struct {
 	r      *hx.Rand
 	slots  map[string][]int    // point -> every slot it has in this case
-	paths  map[string][]string // every path spec of the case: token -> refs
+	paths  map[string][]string // every path spec of the case: token -> elements
 	script []string
+	notes  []string
 }
+
+func (g *gen) note(n string) { g.notes = append(g.notes, n) }
 
 func (g *gen) point(v int, locChance int) string {
 	id := fmt.Sprintf("p%d", v)
@@ -174,6 +182,50 @@ func (g *gen) pathRefs() []string {
 		}
 		return out
 	}
+	inl := func(v int) string { return fmt.Sprintf("@%d", v) } // inline point at the slot of point v
+	if r.Chance(1, 6) { // lengths 0 / 1 / 2 with the elements inline, by reference, mixed
+		switch r.Intn(8) {
+		case 0:
+			return nil
+		case 1:
+			return tok(pick(1))
+		case 2:
+			return []string{inl(pick(1)[0])}
+		case 3:
+			vs := pick(2)
+			return []string{inl(vs[0]), inl(vs[1])}
+		case 4:
+			vs := pick(2)
+			return []string{tok(vs[:1])[0], inl(vs[1])}
+		case 5:
+			vs := pick(2)
+			return []string{inl(vs[0]), tok(vs[1:])[0]}
+		case 6:
+			v := pick(1)[0]
+			return []string{inl(v), inl(v)}
+		default:
+			return tok(pick(2))
+		}
+	}
+	if r.Chance(1, 5) { // a longer path with some elements inline: open, "closed" by reference, closed only geometrically
+		vs := pick(3 + r.Intn(3))
+		es := tok(vs)
+		closeHow := r.Intn(3)
+		switch closeHow {
+		case 1:
+			es = append(es, es[0]) // closed by reference
+		case 2:
+			es = append(es, inl(vs[0])) // ends at the same location, but not by the same ID
+		}
+		for i := range es {
+			if (i > 0 || closeHow != 1 || r.Chance(1, 4)) && r.Chance(1, 3) {
+				var v int
+				fmt.Sscanf(strings.TrimLeft(es[i], "p@"), "%d", &v)
+				es[i] = inl(v)
+			}
+		}
+		return es
+	}
 	switch k := r.Intn(20); {
 	case k < 5: // open
 		return tok(pick(2 + r.Intn(4)))
@@ -208,6 +260,20 @@ func (g *gen) pathRefs() []string {
 
 func (g *gen) path(v int) string {
 	refs := g.pathRefs()
+	inline := 0
+	for _, e := range refs {
+		if e[0] == '@' {
+			inline++
+		}
+	}
+	switch {
+	case inline == 0:
+		g.note(fmt.Sprintf("path:len%d:by-reference", min(len(refs), 3)))
+	case inline == len(refs):
+		g.note(fmt.Sprintf("path:len%d:inline", min(len(refs), 3)))
+	default:
+		g.note(fmt.Sprintf("path:len%d:mixed", min(len(refs), 3)))
+	}
 	tok := fmt.Sprintf("w%d=%s", v, strings.Join(refs, ","))
 	g.paths[tok] = refs
 	return tok
@@ -215,18 +281,31 @@ func (g *gen) path(v int) string {
 
 var pathVals = []int{10, 11, 12, 13, 14}
 
+// area: 1..3 polygons; each is a closed-looking path, any path, a missing path, two paths (outer and
+// hole) or an explicit polygon — so that a defective member can sit at any position, before or after
+// explicit ones.
 func (g *gen) area(v int) string {
 	r := g.r
-	n := 1 + r.Intn(2)
-	var refs []string
+	n := 1 + r.Intn(3)
+	if r.Chance(1, 2) {
+		n = 1
+	}
+	anyPath := func() string { return fmt.Sprintf("w%d", pathVals[r.Intn(len(pathVals))]) }
+	var polys []string
 	for i := 0; i < n; i++ {
-		if r.Chance(1, 12) {
-			refs = append(refs, "w77") // no such path
-		} else {
-			refs = append(refs, fmt.Sprintf("w%d", pathVals[r.Intn(len(pathVals))]))
+		switch k := r.Intn(12); {
+		case k == 0:
+			polys = append(polys, "w77") // no such path
+		case k == 1 && n > 1:
+			polys = append(polys, "*")
+		case k == 2:
+			polys = append(polys, anyPath()+","+anyPath())
+		default:
+			polys = append(polys, anyPath())
 		}
 	}
-	return fmt.Sprintf("a%d=%s", v, strings.Join(refs, ","))
+	g.note(fmt.Sprintf("area:polygons:%d", n))
+	return fmt.Sprintf("a%d=%s", v, strings.Join(polys, "|"))
 }
 
 func (g *gen) relation(v int) string {
@@ -246,8 +325,9 @@ func (g *gen) relation(v int) string {
 	return fmt.Sprintf("r%d=%s", v, strings.Join(refs, ","))
 }
 
-// oracleTable asks S2 about every closed path spec of the case under every combination of the
-// slots its points take in the case, in both directions.
+// oracleTable asks S2 about the loop of every path spec of the case (all elements but the last), under
+// every combination of the slots its referenced points take in the case, in both directions. Whether
+// ValidatePath consults it (Tags.ClosedPath) is the model's business.
 func (g *gen) oracleTable() string {
 	entries := map[string]string{}
 	keys := make([]string, 0, len(g.paths))
@@ -257,21 +337,28 @@ func (g *gen) oracleTable() string {
 	sort.Strings(keys)
 	for _, k := range keys {
 		refs := g.paths[k]
-		if len(refs) < 2 || refs[0] != refs[len(refs)-1] {
+		if len(refs) < 2 {
 			continue
 		}
 		for _, dir := range [][]string{refs, reversed(refs)} {
 			combos := [][]int{{}}
 			ok := true
 			for _, p := range dir {
-				ss := g.slots[p]
+				var ss []int
+				if p[0] == '@' {
+					var v int
+					fmt.Sscanf(p[1:], "%d", &v)
+					ss = []int{1000 + v} // inline slots are numbered from 1000 (exact coordinates)
+				} else {
+					ss = uniq(g.slots[p])
+				}
 				if len(ss) == 0 {
 					ok = false
 					break
 				}
 				var next [][]int
 				for _, c := range combos {
-					for _, s := range uniq(ss) {
+					for _, s := range ss {
 						next = append(next, append(append([]int{}, c...), s))
 					}
 				}
@@ -301,7 +388,11 @@ func (g *gen) oracleTable() string {
 				pts := make([]s2.Point, len(loop))
 				for i, s := range loop {
 					key[i] = fmt.Sprint(s)
-					pts[i] = s2.PointFromLatLng(skelx.SlotLatLng(s))
+					if s >= 1000 {
+						pts[i] = s2.PointFromLatLng(skelx.InlineLatLng(s - 1000))
+					} else {
+						pts[i] = s2.PointFromLatLng(skelx.RefLatLng(s)) // as the world locates the point feature
+					}
 				}
 				l := s2.LoopFromPoints(pts)
 				v, o := "i", "w"
@@ -482,6 +573,13 @@ func corpus(c *hx.Ctx) {
 		// area by a point without location panicked when the area was re-validated before the path (map order)
 		{"oracle [5.7.8=vc]", "mw.new", "mw.add p5=;loc=5", "mw.add p7=;loc=7", "mw.add p8=;loc=8", "mw.add w10=p5,p7,p8,p5", "mw.add a21=w10",
 			"mw.add p5=;noloc", "mw.add p5=;noloc", "mw.add p5=;noloc", "mw.add p5=;noloc"},
+		// seeded-change witnesses: the defective member is a LATER polygon of the area (before / after an explicit
+		// polygon); a one-point path whose point is inline; a path that is closed only geometrically
+		{"oracle [1.2.3=vc]", "build basic invert=1 cores=1 src=[p1=;loc=1 p2=;loc=2 p3=;loc=3 w10=p1,p2,p3,p1 w11=p1,p2,p3 a20=w10|w77 a21=w10|*|w11 a22=*|w10 a23=w10|w10,w11]",
+			"mw.new", "mw.add p1=;loc=1", "mw.add p2=;loc=2", "mw.add p3=;loc=3", "mw.add w10=p1,p2,p3,p1", "mw.add w11=p1,p2,p3", "mw.add a20=w10|w77", "mw.add a21=w10|*|w11", "mw.add a22=*|w10"},
+		{"oracle [1.2=ic 1001.2=ic 1003=ic]", "build basic invert=1 cores=1 src=[p1=;loc=1 p2=;loc=2 w12=@3 w13=p1 w14= w10=p1,p2,@1 w11=@3,@3 a20=w10]",
+			"mw.new", "mw.add p1=;loc=1", "mw.add w12=@3", "mw.add w13=p1", "mw.add w14=", "mw.add w11=@3,@3",
+			"validator pts=[p1=;loc=1 p2=;loc=2] src=[w12=@3 w13=p1 a20=w10 w10=p1,p2,@1]"},
 		// finding degenerate_loop: points 3 and 6 coincide; S2 calls the loop valid and clockwise both ways
 		{"oracle [25.6.5.6=vw]", "validator pts=[p1=;loc=25 p3=;loc=6 p5=;loc=5 p6=;loc=6] src=[w12=p1,p3,p5,p6,p1]",
 			"build basic invert=1 cores=1 src=[p1=;loc=25 p3=;loc=6 p5=;loc=5 p6=;loc=6 w12=p1,p3,p5,p6,p1]"},
@@ -524,6 +622,9 @@ func main() {
 				batchAnswers = skelx.Batch(c, scripts)
 			}
 			c.Note("family:" + batchFamily[c.CaseNo-start])
+			for _, n := range batchGens[c.CaseNo-start].notes {
+				c.Note(n)
+			}
 			emit(c, batchGens[c.CaseNo-start].script, batchAnswers[c.CaseNo-start])
 		},
 	})
